@@ -183,12 +183,24 @@ func (v *Vue) loadCachedWithFrontMatter(filename string) (map[string]any, []*htm
 	cached, ok := v.templateCache[filename]
 	// The cache is only trusted for a file that still exists: when Stat fails (the file was
 	// deleted, or cannot be examined) the template is loaded again, which reports the error.
-	if ok && statOK && (currentModTime.IsZero() || cached.modTime.Equal(currentModTime)) {
-		// Cache hit and file hasn't changed (or the filesystem has no mtimes, e.g. embed.FS)
+	if ok && statOK && cached.modTime.Equal(currentModTime) {
+		// Cache hit and file hasn't changed (on a filesystem without mtimes, e.g. embed.FS,
+		// both are zero and therefore equal)
 		v.templateMu.RUnlock()
 		return cached.frontMatter, cached.dom, nil
 	}
 	v.templateMu.RUnlock()
+
+	// The entry, if any, is out of date. Drop it before loading: if the load below fails, no
+	// stale entry must be left behind that a later render could validate again (the file may
+	// be put back to the cached modification time with other content).
+	if ok {
+		v.templateMu.Lock()
+		if v.templateCache[filename] == cached {
+			delete(v.templateCache, filename)
+		}
+		v.templateMu.Unlock()
+	}
 
 	// Cache miss or file changed - reload
 	frontMatter, templateBytes, err := v.loader.loadFragment(filename)
